@@ -22,12 +22,37 @@ RULE = ("random operation sequences (register / unregister / register_function /
         "single underscore, or the names of dispatcher methods; a derived resource that HIDES an inherited handler behind an "
         "undecorated method or a plain attribute; TWO dispatchers alive in one process fed interleaved sequences (each must "
         "behave as if alone, also when they share resource instances); long lives (thousands of operations on one "
-        "dispatcher); handlers that unregister / re-register / dispatch from inside the callback")
+        "dispatcher); handlers that unregister / re-register / dispatch from inside the callback; message classes that an "
+        "implementation might IDENTIFY: a metaclass under which all message classes compare equal, hash alike and answer True to "
+        "every isinstance / issubclass question; classes of the same and of different __name__ placed in different modules / "
+        "enclosing scopes (__module__, __qualname__); class names differing by case, Unicode normal form, full-width / look-alike "
+        "letters, zero-width or blank padding")
 ASSUMPTIONS = ["annotations are classes or strings; dir() order = sorted method names (computed independently by the harness)",
                "handlers are Python functions: a call with the wrong number of arguments raises TypeError before the body runs"]
 TRUSTED = ["handler bodies are opaque: an exception raised inside a handler propagates unchanged (dispatch has no try/except); not modelled"]
 
-NAMES = ["Ev0", "Ev1", "Ev2", "Ev3", "Msg", "msg", "Évé", "E", ""]
+NAMES = ["Ev0", "Ev1", "Ev2", "Ev3", "Msg", "msg", "Évé", "E", "",
+         # names a canonicalisation would identify with another one: case, NFD / full-width / look-alike forms, padding
+         "E\u0301ve\u0301", "\uff25", "\u0395", "ev0", "EV0", "Ev0 ", "Ev\u200b0", "\uff25\uff56\uff10", "MSG", "Ev1\x00", "mod.Ev0"]
+
+
+class EqMeta(type):
+    """a metaclass under which ALL message classes compare equal, hash alike and claim every object as an instance and every
+    class as a subclass: routing is by the class of the message itself, not by anything the class says about other classes"""
+    def __eq__(cls, other):
+        return isinstance(other, EqMeta)
+
+    def __ne__(cls, other):
+        return not isinstance(other, EqMeta)
+
+    def __hash__(cls):
+        return 7
+
+    def __instancecheck__(cls, inst):
+        return True
+
+    def __subclasscheck__(cls, sub):
+        return True
 MNAMES = ["on_a", "on_b", "on_c", "On_a", "_on_z", "handle", "Zeta", "alpha", "h1", "h10", "h2",
           "__on_q", "__handle__", "__call__", "_", "_0", "register", "dispatch", "__Zz", "on_é"]
 
@@ -53,7 +78,13 @@ class World:
         self.classes = []
         for ci, n in enumerate(spec["classes"]):
             b = (spec.get("class_bases") or [None] * len(spec["classes"]))[ci]
-            self.classes.append(type(n, (object,) if b is None else (self.classes[b],), {}))
+            meta = EqMeta if spec.get("class_meta") else type
+            cls = meta(n, (object,) if b is None else (self.classes[b],), {})
+            q = (spec.get("class_quals") or [None] * len(spec["classes"]))[ci]
+            if q is not None:
+                # same __name__, another module / an enclosing scope: the dispatcher knows a class by its __name__ alone
+                cls.__module__, cls.__qualname__ = q[0], q[1] + n
+            self.classes.append(cls)
         self.rclasses, self.merged, self.insts = [], [], []
         deco_fn = [server_event, client_event]
         for ri, rs in enumerate(spec["resources"]):
@@ -317,7 +348,14 @@ def gen_world(rng):
             deco = kind if rng.random() < 0.9 else 1 - kind
             rs["methods"].append([mname, ann, deco])
         resources.append(rs)
-    return {"classes": classes, "class_bases": class_bases, "resources": resources}, kind
+    spec = {"classes": classes, "class_bases": class_bases, "resources": resources}
+    c = rng.random()
+    if c < 0.25:
+        spec["class_meta"] = 1
+    if 0.15 < c < 0.45:
+        spec["class_quals"] = [rng.choice([None, ["game.messages", ""], ["other.messages", ""], ["game.messages", "Outer."],
+                                           ["harness.props.C20", "Scope.<locals>."]]) for _ in classes]
+    return spec, kind
 
 
 def gen_ops(rng, spec, n):
